@@ -297,6 +297,23 @@ fn step(w: &mut World, s: &Value) -> (Vec<Value>, Vec<Value>) {
             let _ = w.c.call1(req.into());
             (vec![], vec![])
         }
+        "SetMode" => {
+            let sm = geti(s, "sub");
+            let id = *w.sub_real.get(&sm).unwrap_or(&0);
+            let ri = real_item(w, sm, id, geti(s, "item"));
+            let req = SetMonitoringModeRequest {
+                request_header: w.c.header(),
+                subscription_id: id,
+                monitoring_mode: match gets(s, "mode") {
+                    "Sampling" => MonitoringMode::Sampling,
+                    "Disabled" => MonitoringMode::Disabled,
+                    _ => MonitoringMode::Reporting,
+                },
+                monitored_item_ids: Some(vec![ri]),
+            };
+            let _ = w.c.call1(req.into());
+            (vec![], vec![])
+        }
         "Write" => {
             let a = w.c.address_space.clone();
             let mut a = a.write();
